@@ -386,6 +386,10 @@ def rule_flag_chain(ctx: Ctx, rule: str = "C05.flag"):
                     and isinstance(gens[0].target, ast.Name) and show(gens[1].iter) == gens[0].target.id \
                     and isinstance(gens[1].target, ast.Name) and show(g.elt) == f"{gens[1].target.id}._iscoro":
                 ok = True
+            # the same walk, flattened: any(cb._iscoro for cb in chain.from_iterable(self._registry.values()))
+            if len(gens) == 1 and not gens[0].ifs and isinstance(gens[0].target, ast.Name) and show(g.elt) == f"{gens[0].target.id}._iscoro" \
+                    and xshow(gens[0].iter, p.events).replace("itertools.", "") == "chain.from_iterable(self._registry.values())":
+                ok = True
         rep.check(ok, rule, aos.loc(), "has_async_callbacks = any wrapper of any executor is a coroutine", aos.key,
                   f"self.has_async_callbacks = {v}")
     check_engine_choice(ctx, rule)
